@@ -87,11 +87,17 @@ WhySetReserved(c, s, t, e) ==
   IF Listed(e) \subseteq t.res /\ t.res # Listed(e) THEN "stale-reservations-kept"
   ELSE IF t.res # Listed(e) THEN "reserved-set-wrong"
   ELSE "unexplained"
-WhyAddPeer(c, s, t, e) ==
+WhyAddPeer(c, s, t, e, prev) ==
+  \* (a never seen peer that stays unknown was not reached at all; a forgotten one
+  \* that still has a node may have been reached without effect: "not-added")
   IF \E k \in Idx(e) : /\ s.st[e.ps[k]] # "unknown"
                        /\ \A i \in 1..k : t.st[e.ps[i]] # "unknown"
-                       /\ \E i \in (k + 1)..Len(e.ps) : t.st[e.ps[i]] = "unknown"
+                       /\ \E i \in (k + 1)..Len(e.ps) : t.st[e.ps[i]] = "unknown" /\ ~prev.mem[e.ps[i]]
   THEN "later-peers-skipped"
+  ELSE IF \E k \in Idx(e) : /\ s.st[e.ps[k]] # "unknown"
+                            /\ \A i \in 1..k : t.st[e.ps[i]] # "unknown"
+                            /\ \E i \in (k + 1)..Len(e.ps) : t.st[e.ps[i]] = "unknown"
+  THEN "later-forgotten-peer-not-added"
   ELSE IF \E p \in Listed(e) : t.st[p] = "unknown" THEN "not-added"
   ELSE "unexplained"
 WhyRemovePeer(c, s, t, e) ==
@@ -102,12 +108,12 @@ WhyRemovePeer(c, s, t, e) ==
      THEN "later-peers-skipped"
      ELSE IF \E p \in Listed(e) : stays(p) THEN "not-removed"
      ELSE "unexplained"
-Why(c, s, t, e) ==
+Why(c, s, t, e, prev) ==
   CASE e.op = "Report" -> WhyReport(c, s, t, e)
     [] e.op = "AddReserved" -> WhyAddReserved(c, s, t, e)
     [] e.op = "RemoveReserved" -> WhyRemoveReserved(c, s, t, e)
     [] e.op = "SetReserved" -> WhySetReserved(c, s, t, e)
-    [] e.op = "AddPeer" -> WhyAddPeer(c, s, t, e)
+    [] e.op = "AddPeer" -> WhyAddPeer(c, s, t, e, prev)
     [] e.op = "RemovePeer" -> WhyRemovePeer(c, s, t, e)
     [] OTHER -> "unexplained"
 
@@ -127,7 +133,7 @@ Verdict(prev, e) ==
              \* a pre-state above a slot maximum only exists after a step that was already
              \* rejected for raising the counter; what follows from it is classified apart
              ELSE IF ~SlotsInOK(c, s) \/ ~SlotsOutOK(c, s) THEN "from-exceeded-state"
-             ELSE Why(c, s, t, e)
+             ELSE Why(c, s, t, e, prev)
 
 (* input class: length of the list; a listed peer never seen by the peer   *)
 (* set (no node); a listed peer that was forgotten but still has a node    *)
